@@ -28,6 +28,8 @@ export const PROBES = [
   { id: "flat-extra", prog: { decls: [], parsers: [{ name: "X", t: T.obj([T.prop("a", T.kw("string"))]) }] }, value: O([["a", "x"], ["zz", 1]]), expect: "N" },
   { id: "nested-array-extra", prog: { decls: [], parsers: [{ name: "X", t: T.arr(T.obj([T.prop("a", T.kw("string"))])) }] }, value: [O([["a", "x"], ["zz", 1]])], expect: "N" },
   { id: "record-admits", prog: { decls: [], parsers: [{ name: "X", t: T.util("Record", [T.kw("string"), T.kw("number")]) }] }, value: O([["anything", 1]]), expect: "Y" },
+  // recorded: C11-lit-fixed-point (C01-lit-fixed-point seen through strict mode only: the second member covers the value in default mode)
+  { id: "lossy-literal-under-strict-only", prog: { decls: [], parsers: [{ name: "X", t: T.inter([T.obj([T.prop("base", T.lit(false))]), T.union([T.obj([T.prop("tag", T.lit("c")), T.prop("d", T.lit(1e21))]), T.obj([T.prop("tag", T.lit("c")), T.prop("l", T.kw("string"), true)])])]) }] }, value: O([["base", false], ["tag", "c"], ["d", 1e21]]), expect: "Y" },
   { id: "union-branch", prog: { decls: [], parsers: [{ name: "X", t: T.union([T.obj([T.prop("a", T.kw("string"))]), T.obj([T.prop("a", T.kw("string")), T.prop("b", T.kw("number"))])]) }] }, value: O([["a", "x"], ["b", 1]]), expect: "Y" },
 ];
 
@@ -48,7 +50,7 @@ export async function run(ctx) {
       if (s !== p.expect) await report(ctx, { prog: { env: r.env, decls: p.prog.decls }, ref: refm, text: r.text }, "X", core, v, s, p.expect, "probe:" + p.id, locCache, p.prog.parsers[0].t, STRICT);
     }
   }
-  const nProgs = ctx.share(1600, 40000);
+  const nProgs = ctx.share(8000, 40000);
   const typeStats = new Map();
   for await (const item of corpus(ctx, { label: "C11", count: nProgs, features: FEATURES })) {
     const { prog, parsers, ref } = item;
